@@ -62,8 +62,9 @@ func c17Compare(vt *VT, r *refTerm, wantState State) string {
 	if vt.State() != wantState {
 		return fmt.Sprintf("State() is %d, want %d", vt.State(), wantState)
 	}
-	if len(vt.data) != len(r.buf)*3 {
-		return fmt.Sprintf("buffer holds %d bytes, want %d lines x %d columns x 3 = %d", len(vt.data), r.h+r.sb, r.w, len(r.buf)*3)
+	// (what the terminal keeps behind its last line - a spare line, say - is its own business)
+	if len(vt.data) < len(r.buf)*3 {
+		return fmt.Sprintf("buffer holds %d bytes, the %d lines x %d columns x 3 of the terminal need %d", len(vt.data), r.h+r.sb, r.w, len(r.buf)*3)
 	}
 	for i, want := range r.buf {
 		got := ttyCell{vt.data[3*i], vt.data[3*i+1], vt.data[3*i+2]}
